@@ -203,7 +203,10 @@ def _import_insertion_line(source: str, lines: Sequence[str]) -> int:
 def _fix_undefined_variables(source: str, variables: Collection[str]) -> str:
     variables = set(variables)
 
-    lines = source.splitlines()
+    # Only the lines of the imports are added, every other line is kept as it is. Lines are split
+    # like the python parser does it: str.splitlines() also splits inside some string literals.
+    lines = core.split_lines(source)
+    newline = core.line_terminator(source)
     change_count = -len(lines)
     lineno = _import_insertion_line(source, lines)
     for package, package_variables in constants.ASSUMED_SOURCES.items():
@@ -211,7 +214,7 @@ def _fix_undefined_variables(source: str, variables: Collection[str]) -> str:
         if overlap:
             fix = f"from {package} import " + ", ".join(sorted(overlap))
             logger.debug("Inserting '{fix}' at line {lineno}", fix=fix, lineno=lineno)
-            lines.insert(lineno, fix)
+            lines.insert(lineno, fix + newline)
 
     # Sets of names have no stable iteration order (it changes with the string hash seed). Every fix
     # is inserted at the same line, so iterate in reverse alphabetical order to end up alphabetical.
@@ -220,13 +223,13 @@ def _fix_undefined_variables(source: str, variables: Collection[str]) -> str:
     ):
         fix = f"import {package}"
         logger.debug("Inserting '{fix}' at line {lineno}", fix=fix, lineno=lineno)
-        lines.insert(lineno, fix)
+        lines.insert(lineno, fix + newline)
 
     for alias in sorted(constants.PACKAGE_ALIASES.keys() & variables, reverse=True):
         package = constants.PACKAGE_ALIASES[alias]
         fix = f"import {package} as {alias}"
         logger.debug("Inserting '{fix}' at line {lineno}", fix=fix, lineno=lineno)
-        lines.insert(lineno, fix)
+        lines.insert(lineno, fix + newline)
 
     change_count += len(lines)
 
@@ -235,7 +238,10 @@ def _fix_undefined_variables(source: str, variables: Collection[str]) -> str:
     if change_count == 0:
         return source
 
-    return "\n".join(lines) + "\n"
+    if lines[-1] == core.strip_line_terminator(lines[-1]):
+        lines[-1] += newline
+
+    return "".join(lines)
 
 
 def add_missing_imports(source: str) -> str:
